@@ -21,7 +21,7 @@ ASSUMPTIONS = ['volatile/side-effecting functions are not in the grammar; trigge
                'lookups: the error kind shown depends on evaluation order; C18 covers same-row cycles)',
                'Ref/RefList columns are created only towards existing tables']
 BUDGET = {'quick': dict(examples=700, shards=16, max_seconds=75),
-          'thorough': dict(examples=6000, shards=16, max_seconds=1800)}
+          'thorough': dict(examples=2000, shards=16, max_seconds=1800)}
 SHRINK_BUDGET = {'quick': 100, 'thorough': 500}
 
 
